@@ -116,6 +116,9 @@ func check(args []string) (code int) {
 		fmt.Printf("BROKEN: unknown or unclaimed property %q\n", *prop)
 		return 2
 	}
+	if *tier == "thorough" && *mutant == "" {
+		rep.Extra["mutant_replay"] = replayCorpus(*prop, *repo, *verif, 8)
+	}
 	return rep.Finish()
 }
 
